@@ -376,6 +376,7 @@ class PeersFamily(SubsFamily):
         k = swarm_knobs(rng, faults=False)
         k.update(stall_p=0.0, line_p=0.0, chunk_size=25_000_000, activation=5, preempt=False,
                  daemon_latency=(0.0, 0.001), peer_discovery='on', cache_mb=1200,
+                 polling_delay=rng.choice([5, 120, 120]), refresh_secs=rng.choice([5.0, 120.0, 120.0]),
                  tor_proxy_port=rng.choice([None, 9050, 9050]),
                  extra_env=dict(PEER_ANNOUNCE='', REPORT_SERVICES=rng.choice(
                      ['', 'tcp://me.example9.org:50001', 'tcp://me.example9.org:50001,tcp://meabcdefghijklmnop.onion:50001'])))
